@@ -1,7 +1,7 @@
 #!/bin/bash
 # run the property checks against every behaviour-preserving refactoring in seeded/harmless: expect exit 0
 cd /verif
-declare -A props=( [r1]="C18 C14 C03" [r2]="C01 C11 C16 C03" [r3]="C01 C11 C16 C03" [r4]="C19 C06 C20 C03" [r5]="C18 C14 C03" [r6]="C18 C19 C03" [r7]="C01 C16 C11 C03" [r8]="C09 C08 C07 C05" [r9]="C19 C13 C01 C11 C03" )
+declare -A props=( [r1]="C18 C14 C03" [r2]="C01 C11 C16 C03" [r3]="C01 C11 C16 C03" [r4]="C19 C06 C20 C03" [r5]="C18 C14 C03" [r6]="C18 C19 C03" [r7]="C01 C16 C11 C03" [r8]="C09 C08 C07 C05" [r9]="C19 C13 C01 C11 C03" [r10]="C05 C06 C03" )
 only="${1:-}"
 for f in seeded/harmless/*.diff; do
   b=$(basename $f .diff); a=${b%%_*}
